@@ -44,6 +44,22 @@ func (fakeTransport) RoundTrip(req *http.Request) (*http.Response, error) {
 		return nil, errors.New("unable to connect to server")
 	case strings.Contains(u, "cmd=casekeys"):
 		return mk(200, `{"a":1,"A":2,"b":{"x":"lower","X":"upper"}}`, "application/json"), nil
+	case strings.Contains(u, "cmd=true"):
+		return mk(200, `true`, "application/json"), nil
+	case strings.Contains(u, "cmd=false"):
+		return mk(200, `false`, "application/json"), nil
+	case strings.Contains(u, "cmd=null"):
+		return mk(200, `null`, "application/json"), nil
+	case strings.Contains(u, "cmd=number"):
+		return mk(200, `23.50`, "application/json"), nil
+	case strings.Contains(u, "cmd=string"):
+		return mk(200, `"hello"`, "application/json"), nil
+	case strings.Contains(u, "cmd=array"):
+		return mk(200, `[true,false,null,1,"x",{"vip":true}]`, "application/json"), nil
+	case strings.Contains(u, "cmd=flags"):
+		return mk(200, `{"vip":true,"blocked":false,"ref":null}`, "application/json"), nil
+	case strings.Contains(u, "cmd=empty"):
+		return mk(200, ``, "text/plain"), nil
 	case strings.Contains(u, "cmd=success"):
 		return mk(200, `{"ok":true,"results":[{"state":"WA"},{"state":"IN"}],"n":23,"name":"Bob"}`, "application/json"), nil
 	}
